@@ -78,6 +78,8 @@ pub fn value_row(nn: usize, j: usize) -> (Vec<u8>, u8) {
         (0x00, 0x01, 0x02),
         (0x7F, 0x80, 0x81),
         (b'\n', b'\r', b' '),
+        (b'x', b'x', b'y'),
+        (0xFF, 0xFF, 0x00),
     ];
     const T3: &[(u8, u8, u8, u8)] = &[
         (b'a', b'm', b'z', b'q'),
@@ -87,6 +89,12 @@ pub fn value_row(nn: usize, j: usize) -> (Vec<u8>, u8) {
         (0x80, 0x00, 0x80, 0x01),
         (0x7F, 0x80, 0x81, 0x82),
         (b'<', b'>', b'&', b'"'),
+        (b'x', b'y', b'x', b'z'),
+        (b'x', b'x', b'y', b'z'),
+        (b'x', b'y', b'y', b'z'),
+        (0x00, 0xFF, 0x00, 0x01),
+        (0x00, 0x00, 0xFF, 0x80),
+        (0x80, 0x7F, 0x7F, 0xFF),
     ];
     match nn {
         1 => {
@@ -112,11 +120,12 @@ pub fn fill_hay(h: &mut [u8], matches: &[usize], needles: &[u8], filler: u8, pat
     }
     let nn = needles.len();
     for (k, &m) in matches.iter().enumerate() {
-        let which = match pat % 4 {
-            0 => 0,
-            1 => nn - 1,
-            2 => k % nn,
-            _ => (m + k) % nn,
+        // the pattern decides which needle the FIRST match gets (every needle index is reached as
+        // pat varies) and how the following matches rotate through the needles
+        let which = match (pat / nn) % 3 {
+            0 => (pat + k) % nn,
+            1 => pat % nn,
+            _ => (pat + m + k) % nn,
         };
         h[m] = needles[which];
     }
@@ -263,18 +272,21 @@ pub struct Opts {
 pub fn replay_one(idx: usize, v: &Value, rep: &Report, cnt: &mut Counts, o: &Opts) {
     let g = parse(v);
     let ctxv = |extra: Value| json!({"vector": g.raw, "run": extra});
-    for var in 0..o.variants {
+    // Two and Three share the model's UNROLL = 2 structure: a vector with nn = 2 is executed with 2 and with 3 needles
+    let nvar = if g.nn == 2 { o.variants * 2 } else { o.variants };
+    for var in 0..nvar {
         let j = idx.wrapping_add(var).wrapping_add(o.seed as usize);
-        let (needles, filler) = value_row(g.nn, j);
+        let rnn = if g.nn == 2 && var % 2 == 1 { 3 } else { g.nn };
+        let (needles, filler) = value_row(rnn, j / 2);
         // exact scaled replay on the first variant
-        if var == 0 && o.scaled {
+        if var < 2 && (var == 0 || g.nn == 2) && o.scaled {
             let align = g.base + g.vb * (j % (64 / g.vb.max(1)).max(1));
             let mut p = Placed::new(g.len, align, filler);
             p.fill_slack(needles[0]);
             fill_hay(p.slice_mut(), &g.matches, &needles, filler, j);
             let h = p.slice();
             hook::start(&[(h.as_ptr() as usize, h.len())]);
-            let got = guard(|| run_scaled(g.vb, g.nn, &needles, g.op, h));
+            let got = guard(|| run_scaled(g.vb, rnn, &needles, g.op, h));
             let (ev, _) = hook::stop();
             let run = json!({"exec": "scaled", "vb": g.vb, "needles": needles, "filler": filler, "align": align % 64});
             match got {
